@@ -292,13 +292,27 @@ theorem evalE_paren_removed_call (f : Expr) (args : List Expr) (fv : Val N) (σ 
 
 end level
 
+/-- the `select` case of `libCall`, by unfolding -/
+theorem libCall_select (call : CallFn N) (ρ : ExtOracle N) (d : Nat) (args : List (Val N)) (σ : State N) :
+    libCall call ρ (d + 1) "select" args σ =
+      (match first args with
+       | .str [35] => .ok [.num (N.ofNat (args.length - 1))] σ
+       | v =>
+         match (toNumber? v).bind N.toNat? with
+         | some (n + 1) => .ok (dropN n (args.drop 1)) σ
+         | _ => errS "bad argument #1 to 'select'" σ) := by
+  rfl
+
 /-- `select(1, …)` hands back its remaining arguments -/
 theorem callVal_select_one (call : CallFn N) (ρ : ExtOracle N) (k : Nat) (b : UInt64) (ws : List (Val N)) (σ : State N)
     (hone : N.toNat? (N.ofBits b) = some 1) :
     callVal call ρ (k + 2) (.builtin "select") (.num (N.ofBits b) :: ws) σ = .ok ws σ := by
   have hc : libNames.contains "select" = true := by decide
-  simp only [callVal, hc, if_true, libCall, first_cons, toNumber?, Option.bind_some, hone,
-    List.drop_succ_cons, List.drop_zero, dropN]
+  have h1 : callVal call ρ (k + 2) (.builtin "select") (.num (N.ofBits b) :: ws) σ
+      = libCall call ρ (k + 1) "select" (.num (N.ofBits b) :: ws) σ := by
+    simp only [callVal, hc, if_true]
+  rw [h1, libCall_select]
+  simp only [first_cons, toNumber?, Option.bind_some, hone, List.drop_succ_cons, List.drop_zero, dropN]
 
 theorem evalE_select_one (call : CallFn N) (ρ : ExtOracle N) (k : Nat) (env : Env N) (sel : String) (b : UInt64)
     (args : List Expr) (σ : State N)
